@@ -6,7 +6,7 @@ from harness import core, gen, common
 
 ID = 'C16'
 LEAN_TARGETS = ['Props.C16']
-TIE_A = ['series_sin_eq', 'series_sinh_eq', 'series_cos_eq', 'series_cosh_eq']
+TIE_A = ['series_sin_eq', 'series_sinh_eq', 'series_cos_eq', 'series_cosh_eq', 'series_exp_eq']
 OBLIGATIONS = [
     'C16.blade_even_powers', 'C16.blade_odd_powers', 'C16.exp_on_blade', 'C16.exp_on_null_blade', 'C16.exp_on_scalar',
     'C16.squaring_undoes_scaling', 'C16.exp_commute', 'C16.cosh_plus_sinh_is_exp', 'C16.series_loop_invariant',
